@@ -277,6 +277,11 @@ def run_case(case, res):
             t = TypedTree("t")
             nodes = gen.build(t, f, lambda i: f"n{i}", kind=lambda i: "ka" if (i * 7 + i // 2) % 3 else "kb")
             return t, nodes, {id(nd): i for i, nd in enumerate(nodes)}
+        if lab == "ext":
+            X = gen.ext_classes()
+            t = X["XTree"]("t")
+            nodes = gen.build(t, f, lambda i: f"n{i}")
+            return t, nodes, {id(nd): i for i, nd in enumerate(nodes)}
         if lab == "fwd":
             # a plain tree that forwards attribute access to its data objects, whose attributes include names the typed
             # classes use (`kind`); filtering must not care
@@ -467,7 +472,7 @@ def run_shard(spec, res):
                     if n >= 2 and (k // NSHARDS) % 3 == 0:
                         run_case({"f": fc, "assign": assign, "form": forms[0], "start": starts[0], "typed": True}, res)
                     if n >= 2:
-                        lab = ["eqsib", "clones", "fwd"][(k // NSHARDS) % 3]
+                        lab = ["eqsib", "clones", "fwd", "ext"][(k // NSHARDS) % 4]
                         run_case({"f": fc, "assign": assign, "form": forms[0], "start": starts[0], "lab": lab, "lseed": k}, res)
                 if res.expired():
                     res.count("exhaustive_cut")
@@ -481,7 +486,7 @@ def run_shard(spec, res):
             w = rng.choice([[6, 5, 2, 1, 1, 1, 0.3], [3, 3, 1, 2, 2, 2, 1], [1, 6, 1, 1, 1, 1, 0.2]])
             assign = "".join(rng.choices(V, weights=w, k=n))
             run_case({"f": gen.code(f), "assign": assign, "form": rng.choice(["ret", "raise", "stopiter"]),
-                      "start": rng.choice([-1, -1, rng.randrange(n)]), "lab": rng.choice(["uniq", "eqsib", "clones", "fwd"]),
+                      "start": rng.choice([-1, -1, rng.randrange(n)]), "lab": rng.choice(["uniq", "eqsib", "clones", "fwd", "ext"]),
                       "lseed": rng.randrange(10**6), "typed": rng.random() < 0.25}, res)
             if res.expired():
                 break
